@@ -45,6 +45,7 @@ var translTargets = []translTarget{
 // are parameters of the region.
 var translTargets2 = []translTarget{
 	{"internal/evaluator", "splitCount"},
+	{"internal/evaluator", "split"},
 	{"internal/evaluator", "padSpaceLeft"},
 	{"internal/evaluator", "padSpaceRight"},
 	{"internal/evaluator", "padLeft"},
@@ -274,6 +275,59 @@ func (t *tr) env() string {
 	return "[" + strings.Join(xs, ", ") + "]"
 }
 
+// envWith: the frame, followed by the current values of the int variables that the statement reached mentions and that
+// are not in the frame (a variable declared inside a branch: `n := …; r := make([]any, n+1)`), in order of appearance.
+// For loops and conditionals only the header is looked at.
+func (t *tr) envWith(s ast.Stmt) string {
+	inFrame := map[types.Object]bool{}
+	for _, o := range t.reg.frame {
+		inFrame[o] = true
+	}
+	var nodes []ast.Node
+	switch s := s.(type) {
+	case *ast.ForStmt:
+		if s.Init != nil {
+			nodes = append(nodes, s.Init)
+		}
+		if s.Cond != nil {
+			nodes = append(nodes, s.Cond)
+		}
+	case *ast.IfStmt:
+		if s.Init != nil {
+			nodes = append(nodes, s.Init)
+		}
+		nodes = append(nodes, s.Cond)
+	case *ast.RangeStmt:
+		nodes = append(nodes, s.X)
+	case *ast.SwitchStmt, *ast.TypeSwitchStmt, *ast.BlockStmt:
+	default:
+		nodes = append(nodes, s)
+	}
+	env := t.env()
+	var extra []string
+	seen := map[types.Object]bool{}
+	for _, n := range nodes {
+		ast.Inspect(n, func(m ast.Node) bool {
+			if id, ok := m.(*ast.Ident); ok {
+				if o := t.pkg.TypesInfo.Uses[id]; o != nil && !inFrame[o] && !seen[o] {
+					if name, ok := t.names[o]; ok {
+						seen[o] = true
+						extra = append(extra, name)
+					}
+				}
+			}
+			return true
+		})
+	}
+	if len(extra) == 0 {
+		return env
+	}
+	if env == "[]" {
+		return "[" + strings.Join(extra, ", ") + "]"
+	}
+	return env[:len(env)-1] + ", " + strings.Join(extra, ", ") + "]"
+}
+
 func tableIdx(tab *[]string, s string) int {
 	for i, x := range *tab {
 		if x == s {
@@ -300,7 +354,7 @@ func (t *tr) stmts(ss []ast.Stmt, k func(ind string) string, ind string) string 
 	s, rest := ss[0], ss[1:]
 	next := func(ind string) string { return t.stmts(rest, k, ind) }
 	stop := func() string {
-		return fmt.Sprintf("Exit.reach %d %s", tableIdx(&t.reg.reaches, t.src(s)), t.env())
+		return fmt.Sprintf("Exit.reach %d %s", tableIdx(&t.reg.reaches, t.src(s)), t.envWith(s))
 	}
 	letIn := func(o types.Object, rhs string, divs []string) string {
 		n := t.nameOf(o)
